@@ -277,8 +277,11 @@ def check_method(ctx, which, dex, dx, ma, em, ref, wit, shipped=False):
             want = bc.get_ins_off(poff) if poff in ref.offsets else None
             misal = "-misaligned" if poff % 4 else ""
             if want is None:
-                if got is not None and poff in range(0, ref.size):
-                    pass  # the encoded offset is not an instruction start: nothing the analysis could link to
+                if got is not None:
+                    # the encoded offset is not an instruction start (or lies outside the code): there is no "payload at the offset that
+                    # instruction encodes", so whatever is linked is some other instruction
+                    viol("C40", "payload-link-although-no-instruction-at-encoded-offset", "a switch/fill-array-data instruction whose encoded offset is not an instruction start is linked to some payload",
+                         {"ins_offset": off, "encoded_payload_offset": poff, "got": type(got).__name__})
                 continue
             klass = {"packed": dex.PackedSwitch, "sparse": dex.SparseSwitch, "fill": dex.FillArrayData}[kind]
             if not isinstance(want, klass):
